@@ -1040,6 +1040,11 @@ class Interp:
     def e_Name(self, e, fr):
         return self.load_name(e.id, fr)
 
+    def e_NamedExpr(self, e, fr):
+        v = self.eval(e.value, fr)          # (name := value): binds in the enclosing function scope and yields the value
+        self.assign(e.target, v, fr)
+        return v
+
     def e_Attribute(self, e, fr):
         return self.getattr(self.eval(e.value, fr), e.attr, fr)
 
